@@ -211,6 +211,16 @@ class Ctx(object):
 
         test()
 
+    def hyp_sharded(self, name, n, salt=0, shards=16):
+        """Like hyp() for the entry mod.HYP[name] = (strategy_factory(ctx), body(ctx, case)), but split over worker
+        processes when n is large (each shard draws n/shards cases with its own salt)."""
+        mod = load_module(self.prop)
+        strategy_factory, body = mod.HYP[name]
+        if n < 1000 or shards <= 1:
+            return self.hyp(strategy_factory(self), lambda c: body(self, c), n, salt=salt)
+        per = (n + shards - 1) // shards
+        self.parallel("__hyp__", [(name, per, salt * 1000 + k + 1) for k in range(shards)])
+
     def enum(self, cases, body):
         for c in cases:
             body(c)
@@ -341,7 +351,12 @@ def _worker(job):
         sub = Ctx(prop, tier, seed)
         viol = None
         try:
-            getattr(mod, func_name)(sub, arg)
+            if func_name == "__hyp__":
+                name, n, salt = arg
+                strategy_factory, body = mod.HYP[name]
+                sub.hyp(strategy_factory(sub), lambda c: body(sub, c), n, salt=salt)
+            else:
+                getattr(mod, func_name)(sub, arg)
         except Violation as v:
             viol = v.record
         return {"dump": sub.dump(), "violation": viol}
